@@ -1,5 +1,5 @@
-(* C11_Proofs2.v — Association().Find, nested paths, and the witnesses showing that
-   utils.ToStringKey (as it is on the tree) is NOT faithful to value equality. *)
+(* C11_Proofs2.v — Association().Find, nested paths (generic in the encoding), and witnesses showing
+   that the PREVIOUS utils.ToStringKey (before fix 5d340d3) was not faithful to value equality. *)
 From Verif Require Import Base C11_Model C11_Proofs.
 Open Scope nat_scope.
 
@@ -87,7 +87,9 @@ Proof.
 Qed.
 
 (* ------------------------------------------------------------------ *)
-(* witnesses: on the current tree the hypothesis of preload_hop_attach cannot be dropped *)
+(* witnesses about the PREVIOUS encoding (utils.ToStringKey before fix 5d340d3): with it the
+   hypothesis of preload_hop_attach could not be dropped.  Historical; the checker never evaluates
+   to_string_key_prev. *)
 Open Scope Z_scope.
 Definition hop_many := mk_hop false CAll false None.
 Definition hop_one := mk_hop true CAll false None.
@@ -98,7 +100,7 @@ Definition sep_cs : list child :=
   [mk_child 201 [KPStr "a_b"; KPStr "c"] 1 false "" []; mk_child 202 [KPStr "a"; KPStr "b_c"] 2 false "" []].
 
 Lemma refuted_separator :
-  preload_hop to_string_key hop_many sep_ps sep_cs = Some [[201]; [201]] /\
+  preload_hop to_string_key_prev hop_many sep_ps sep_cs = Some [[201]; [201]] /\
   attach hop_many sep_ps sep_cs = [[201]; [202]].
 Proof. split; vm_compute; reflexivity. Qed.
 
@@ -107,8 +109,8 @@ Definition nil_ps : list key := [[KNil; KPStr "x"]; [KPStr "nil"; KPStr "x"]].
 Definition nil_cs : list child := [mk_child 301 [KStr "nil"; KStr "x"] 1 false "" []].
 
 Lemma refuted_nil :
-  preload_hop to_string_key hop_one nil_ps nil_cs = Some [[]; []] /\
-  preload_hop to_string_key hop_one (rev nil_ps) nil_cs = Some [[301]; [301]] /\
+  preload_hop to_string_key_prev hop_one nil_ps nil_cs = Some [[]; []] /\
+  preload_hop to_string_key_prev hop_one (rev nil_ps) nil_cs = Some [[301]; [301]] /\
   attach hop_one nil_ps nil_cs = [[]; [301]].
 Proof. repeat split; vm_compute; reflexivity. Qed.
 
@@ -118,16 +120,16 @@ Definition zero_cs : list child :=
   [mk_child 201 [KPInt 0; KPStr "x"] 1 false "" []; mk_child 202 [KPInt 1; KPStr "x"] 2 false "" []].
 
 Lemma refuted_zero :
-  preload_hop to_string_key hop_many zero_ps zero_cs = None /\
+  preload_hop to_string_key_prev hop_many zero_ps zero_cs = None /\
   attach hop_many zero_ps zero_cs = [[201]; [202]].
 Proof. split; vm_compute; reflexivity. Qed.
 
 Lemma refuted_all :
-  exists h ps cs, preload_hop to_string_key h ps cs <> Some (norm_single (h_single h) (attach h ps cs)).
+  exists h ps cs, preload_hop to_string_key_prev h ps cs <> Some (norm_single (h_single h) (attach h ps cs)).
 Proof. exists hop_many, sep_ps, sep_cs. vm_compute. discriminate. Qed.
 
 (* Association().Find over several owners inherits the IN-list dedupe: the second owner's rows are lost *)
 Lemma refuted_assoc_find :
-  assoc_find to_string_key hop_many sep_ps sep_cs = [201] /\
+  assoc_find to_string_key_prev hop_many sep_ps sep_cs = [201] /\
   map c_uid (filter (owned hop_many sep_ps) sep_cs) = [201; 202].
 Proof. split; vm_compute; reflexivity. Qed.
